@@ -1423,6 +1423,7 @@ fn prepare(scn: &Scenario, cfg: &SchedCfg) {
         }
         payload::reset(r.exec_id.get(), scn.slow_clone, scn.slow_view, scn.slow_drop);
         r.trace.set(std::env::var_os("VERIF_TRACE").is_some());
+        r.post_write.set(scn.post_write);
         r.active.set(true);
     });
     rt::galloc::set_quarantine(scn.quarantine);
